@@ -455,6 +455,19 @@ mutual
     | .cons c cs => c.sat A C L && cs.sat A C L
 end
 
+mutual
+  /-- A loop that is not inside a scope of the tree. -/
+  def Comp.hasLoop : Comp → Bool
+    | .leaf _ _ => false
+    | .block cs => cs.hasLoop
+    | .loop _ _ => true
+    | .branch _ t e he => t.hasLoop || (he && e.hasLoop)
+    | .scope _ => false
+  def Comps.hasLoop : Comps → Bool
+    | .nil => false
+    | .cons c cs => c.hasLoop || cs.hasLoop
+end
+
 def Op.sat (A : Act → Bool) (L : Bool) : Op → Bool
   | .prim ev acts => ev.1 != .ceval && acts.all A
   | .counter0 => L
@@ -619,11 +632,38 @@ def Res.toSexp : Res → Sexp
   | .counter => .atom "counter"
   | .fuel => .atom "timeout"
 
-def outSexp (σ : St) (r : Res) : Sexp :=
+mutual
+  def Cond.shape : Cond → Sexp
+    | .leaf id => .list [.atom "c", ofNat id]
+    | .all cs => .list (.atom "and" :: cs.shapes)
+    | .any cs => .list (.atom "or" :: cs.shapes)
+    | .not c => .list [.atom "not", c.shape]
+  def Conds.shapes : Conds → List Sexp
+    | .nil => []
+    | .cons c cs => c.shape :: cs.shapes
+end
+
+mutual
+  /-- The tree in wire form, without leaf actions: what `do_/while_/if_/if_else_/scope_/build`
+  (or the constructors) must have built. -/
+  def Comp.shape : Comp → Sexp
+    | .leaf id _ => .list [.atom "leaf", ofNat id]
+    | .block cs => .list (.atom "blk" :: cs.shapes)
+    | .loop c b => .list [.atom "while", c.shape, b.shape]
+    | .branch c t e he =>
+      if he then .list [.atom "ifelse", c.shape, t.shape, e.shape] else .list [.atom "if", c.shape, t.shape]
+    | .scope b => .list [.atom "scope", b.shape]
+  def Comps.shapes : Comps → List Sexp
+    | .nil => []
+    | .cons c cs => c.shape :: cs.shapes
+end
+
+def outSexp (c : Comp) (σ : St) (r : Res) : Sexp :=
   .list [ .list (.atom "trace" :: σ.trace.map fun e => .list [.atom e.1.name, ofNat e.2]),
           .list [.atom "res", r.toSexp],
           .list [.atom "depth", ofNat σ.reg.length],
-          .list (.atom "dump" :: σ.reg.map fun m => .list (m.sorted.map fun e => .list [ofNat e.1, ofNat e.2])) ]
+          .list (.atom "dump" :: σ.reg.map fun m => .list (m.sorted.map fun e => .list [ofNat e.1, ofNat e.2])),
+          .list [.atom "built", c.shape] ]
 
 structure Case where
   comp : Comp
@@ -652,6 +692,6 @@ def handleCase (input : Sexp) : Option (Sexp × Sexp × Case) := do
     let σ0 : St := { reg := c.pre, tr := [] }
     let (σm, rm) := run c.script c.fuel c.comp σ0
     let (σs, rs) := srun c.script c.fuel (prog c.comp) σ0
-    pure (outSexp σm rm, outSexp σs rs, c)
+    pure (outSexp c.comp σm rm, outSexp c.comp σs rs, c)
 
 end MahfModel.Config
